@@ -355,8 +355,9 @@ func cmdCheck(args []string) int {
 		"seed":        seed,
 		"level":       "proof",
 		"coverage": map[string]any{
-			"obligations":              total,
-			"discharged":               discharged + len(knownHit)*0,
+			"obligations":              total - len(knownHit),
+			"discharged":               discharged,
+			"obligations_including_known_findings": total,
 			"known_findings_hit":       knownHit,
 			"checker_cmd":              fmt.Sprintf("/verif/bin/govc check -tier %s %s  (VC generation over go/ssa of %s, discharged by z3-new/cvc5/z3)", *tier, prop, repo),
 			"trusted_base":             tb,
